@@ -897,9 +897,21 @@ EvalOutline(r) ==
                       IN IF gb = {} \/ gs = {} THEN <<>>
                          ELSE <<Out(r, "C13.base_case_is_F_at_n", CLEquiv(Ground(r.induction[i][CHOOSE x \in gb : TRUE].f, EmptyEnv), ref.base, <<>>), e.name),
                                 Out(r, "C13.inductive_step_is_F_N_implies_F_N_plus_1", CLEquiv(Ground(r.induction[i][CHOOSE x \in gs : TRUE].f, EmptyEnv), ref.step, <<>>), e.name)>>
+                    \* the AXIOM a plain lemma contributes must follow from the CONJECTURES of the outline problems emitted before its
+                    \* first use in that direction (r.est[i]: uses = [k, fwd, name, f], conjs = [k, fwd, f]); it is usually one of them
+                    uses == r.est[i].uses
+                    conjs == r.est[i].conjs
+                    EstOut(u) ==
+                      LET before == SelectSeq(conjs, LAMBDA c : c.fwd = u.fwd /\ c.k < u.k)
+                          trees == <<u.f>> \o [j \in DOMAIN before |-> before[j].f]
+                          tally == OverEnvs(FreeKeys(trees), LAMBDA e :
+                                     LET C == GroundAll([j \in DOMAIN before |-> before[j].f], e)
+                                     IN CLEquiv(PAnd(C, Ground(u.f, e)), C, e))
+                      IN Out(r, "C13.lemma_axiom_follows_from_the_conjectures_establishing_it", tally, u.name)
                 IN <<Out(r, "C13.outline_accepted_iff_wellformed", OkT, ""),
                      Out(r, "C13.lemmas_are_axioms_only_after_they_are_established", IF sw = "" THEN OkT ELSE BadT([note |-> sw]), ToString(fm.flags))>>
                    \o FlattenSeq([k \in 1..Len(r.po) |-> IF k \in inds THEN IndOuts(k) ELSE <<>>])
+                   \o [j \in DOMAIN uses |-> EstOut(uses[j])]
   IN FlattenSeq([i \in DOMAIN r.families |-> PerFamily(i)])
 
 EvalRecord(r) ==
